@@ -812,7 +812,7 @@ def run_push(t, data, msglen, ch, mode):
         return [("%s:exception:%s" % (t.name, innermost(e)), {"sizes": sizes, "error": repr(e)[:300]})]
     bad = diff(t.expected, got)
     if bad:
-        return [("%s:decoded-differs:%s" % (t.name, "+".join(bad)),
+        return [("%s:decoded-differs:%s" % (t.name, bad[0]),
                  {"sizes": sizes, "expected": {k: t.expected[k] for k in bad}, "got": {k: got.get(k) for k in bad}})]
     return []
 
@@ -909,7 +909,7 @@ class ClientPullTarget:
             return [("%s:exception:%s" % (self.name, innermost(e)), {"sizes": self.sizes, "error": repr(e)[:300]})]
         bad = diff(self.expected, got)
         if bad:
-            return [("%s:decoded-differs:%s" % (self.name, "+".join(bad)),
+            return [("%s:decoded-differs:%s" % (self.name, bad[0]),
                      {"sizes": self.sizes, "expected": {k: self.expected[k] for k in bad}, "got": {k: got.get(k) for k in bad}})]
         if req._state != "done" or med._current_request is not None:
             return [("%s:response-read-but-request-not-finished" % self.name, {"sizes": self.sizes, "state": req._state})]
@@ -1443,8 +1443,9 @@ def replay_detail(detail):
         return (stop.args[0] if stop.args else []) or []
 
 
-def exhaustive(run, limit=2000000):
-    """Every choice sequence, no state cache (cross-check of the search on small inputs)."""
+def exhaustive(run, limit=20000):
+    """Every choice sequence, no state cache (cross-check of the search on small inputs).
+    Returns keys None when the enumeration was cut off at `limit` executions."""
     keys = set()
     verdicts = []
     execs = 0
@@ -1459,7 +1460,7 @@ def exhaustive(run, limit=2000000):
             v = stop.args[0] if stop.args else None
         execs += 1
         if execs > limit:
-            raise HarnessError("exhaustive enumeration exceeds %d executions" % limit)
+            return None, verdicts, execs
         if v:
             verdicts.append((tuple(t[2] for t in ch.trace), v))
         tr = ch.trace
